@@ -124,6 +124,43 @@ def run(chk, prog):
                         "transfer arm `%s` of copy_half writes payload without the incr_sent_bytes every other arm performs: "
                         "activity/idle tracking and counters differ between I/O modes" % k)
 
+    # ---------------------------------------------------------------- ERR1: an I/O error of a transfer is relayed as an error
+    # every Result that reaches a `?` inside the relay loop is the transfer's own result, possibly decorated by Err-preserving adaptors
+    # (context / with_context / map_err); it is never a result in which some Err was replaced by a manufactured Ok (which would turn
+    # a peer's reset into an orderly end-of-stream)
+    from ..flow import value_sources
+    ADAPT = re.compile(r"easy_error::ResultExt::(context|with_context)$|Result::<T, E>::(map_err|inspect_err)$|convert::Into::into$")
+
+    def origins(l, bb, idx, depth=6):
+        out = set()
+        for sv in value_sources(f, l, bb, idx):
+            if sv[0] == "call" and ADAPT.search(sv[1].path or "") and depth > 0 and sv[1].args and op_base(sv[1].args[0]) is not None:
+                out |= origins(op_base(sv[1].args[0]), sv[1].bb, None, depth - 1)
+            elif sv[0] == "agg":
+                out.add(("built", sv[1], sv[3]))
+            elif sv[0] == "place":
+                out.add(("from", sv[1][0]))
+            elif sv[0] == "call":
+                out.add(("call", sv[1].bb))
+            else:
+                out.add(sv[:2])
+        return out
+    ntry = 0
+    for c in f.calls:
+        if not re.search(r"ops::try_trait::Try::branch$", c.path or "") or not in_loop(c.bb) or op_base(c.args[0]) is None:
+            continue
+        og = origins(op_base(c.args[0]), c.bb, None)
+        built_ok = [o for o in og if o[0] == "built" and o[1] in ("Ok", "Some")]
+        others = [o for o in og if o[0] != "built"]
+        ntry += 1
+        okp = not (built_ok and others)
+        chk.instance("ERR1", c.where(), "the result tested by `?` in the relay loop is the transfer's own result", okp, nontrivial=bool(others))
+        if not okp:
+            chk.finding("ERR1", f.key, "error-replaced-by-ok", "", c.where(),
+                        "a Result tested by `?` in copy_half's relay loop is on some path a manufactured Ok(..) instead of the transfer's own result: "
+                        "an I/O error (a peer's reset) is then handled like end-of-stream, the other endpoint sees an orderly shutdown instead of an abort")
+    chk.floor("ERR1", ntry, 4, "`?` sites in the relay loop")
+
     # ---------------------------------------------------------------- copy_bidi completion
     cb = prog.body_of(prog.one(r"^copy::copy_bidi$"))
     # Ok(()) results
